@@ -319,7 +319,7 @@ pub fn equality(seed: u64, n: usize, out: &str) {
                 day += 1;
             }
         }
-        let variant = r.below(12);
+        let variant = r.below(13);
         let mut hols2 = hols.clone();
         let (a, b, what): (Obj, Obj, &str) = match variant {
             // identical behaviour, different structure
@@ -361,6 +361,16 @@ pub fn equality(seed: u64, n: usize, out: &str) {
                 }
                 hols2.push(dn(d));
                 (Obj::C(Cal::new(hols2, mask.clone())), Obj::U(UnionCal::new(vec![base.clone()], None)), "cal-vs-union-weekend-holiday")
+            }
+            12 => {
+                // two named calendars whose NAMES differ but whose dates do not: members permuted or repeated
+                let other = if base_name == "ldn" { "tgt" } else { "ldn" };
+                let (n1, n2) = match r.below(3) {
+                    0 => (format!("{},{}", base_name, other), format!("{},{}", other, base_name)),
+                    1 => (base_name.to_string(), format!("{},{}", base_name, base_name)),
+                    _ => (format!("{}|fed,{}", base_name, other), format!("{}|{},fed", base_name, other)),
+                };
+                (Obj::N(NamedCal::try_new(&n1).unwrap()), Obj::N(NamedCal::try_new(&n2).unwrap()), "named-vs-named-other-spelling")
             }
             10 => {
                 // the calendar container on the right: a named calendar with a settlement part against itself in the container
